@@ -5,6 +5,21 @@ NOTES = ("All checks are contract-based deductive verification with pyvc (DESIGN
          "contract, failed validation of an assumed external contract). Known findings: /verif/known_findings.json.")
 
 CLAIMS = {
+    "C13": {
+        "text": ("Proof by symbolic execution of the real Simulation.clone, Population.clone, GroupPopulation.clone and Holder.clone "
+                 "on a heap with concrete object identities and symbolic contents: every part of the clone refers to the clone "
+                 "(populations, holders, members, shortcut attributes), every owned mutable object (tables, in-memory storages, mark "
+                 "set, tracer) is a different object with equal content, shared parts are the declared immutables, and no field "
+                 "reachable from the original changes. Four genuine defects found this way were repaired (fix: commits); the sharing "
+                 "of on-disk storages is a listed known finding."),
+        "note": ("Obligations are identity / frame checks decided by the executor on one representative heap shape (two person holders, "
+                 "one group holder; table loops unrolled); Holder.clone enters Population/Simulation.clone through its contract. "
+                 "Independence under later operation sequences is derived from disjoint owned footprints, for mutators whose frames "
+                 "are checked under C17/C18; files on disk are outside the heap model. While the known finding is open the property "
+                 "does not hold for disk-backed variables."),
+        "technique": "contract-based deductive verification (heap separation / frame postconditions by symbolic execution)",
+        "design_ref": "DESIGN.md section 4 C13",
+    },
     "C16": {
         "text": ("Proof with loop invariants and ghost partial sums on the real set_input_divide_by_period and "
                  "set_input_dispatch_by_period, for every same-family (definition period, long period) pair, every start date and "
